@@ -76,6 +76,12 @@ Theorem C03_refuted_mixed : exists c, shallow_hit (mixed 3) (run (mixed 3) h_mix
   ~ incl (tasks_of c) [3; 4; 5; 6].
 Proof. exact (stale_spec _ _ _ _ _ (proj1 w_mixed)). Qed.
 
+(** Configuration [guarded] (a replayed job fetches its recorded subtree tasks only when its parent job was not
+    itself served from the cache): refuted without any fault by two edits in a row. *)
+Theorem C03_refuted_guarded : exists c, shallow_hit (guarded 3) (run (guarded 3) h_guarded) 1 [10] [1; 3; 7; 6] = Some c /\
+  ~ incl (tasks_of c) [1; 3; 7; 6].
+Proof. exact (stale_spec _ _ _ _ _ (proj1 w_guarded)). Qed.
+
 (** Non-vacuity: in the repaired variant the witness histories give no stale hit, and the hit is
     still taken when nothing was edited. *)
 Example C03_nonvacuous :
@@ -94,3 +100,4 @@ Print Assumptions C03_refuted_import.
 Print Assumptions C03_refuted_cse.
 Print Assumptions C03_shallow_hit_sound_mixed_partial.
 Print Assumptions C03_refuted_mixed.
+Print Assumptions C03_refuted_guarded.
